@@ -1,5 +1,6 @@
 SPECIFICATION TraceSpec
-CONSTANTS MaxOp = 80
+CONSTANTS NTx = 80
+          Idxs = {0, 1, 2, 3}
           Vals = {1}
           Targets = {1}
           MinChanges = {0}
